@@ -198,11 +198,12 @@ class JSONSerialization(Serialization):
         """Given an applicable numeric schema, augment with bounds information."""
         if bounds is not None:
             (low, high) = bounds
-            # an infinite bound is no bound (and is not valid JSON)
-            if low is not None and low != float('-inf'):
+            # a non-finite bound cannot be written in JSON
+            finite = lambda b: not (isinstance(b, float) and (b != b or b in (float('inf'), float('-inf'))))
+            if low is not None and finite(low):
                 key = 'minimum' if inclusive_bounds[0] else 'exclusiveMinimum'
                 schema[key] = low
-            if high is not None and high != float('inf'):
+            if high is not None and finite(high):
                 key = 'maximum' if inclusive_bounds[1] else 'exclusiveMaximum'
                 schema[key] = high
         return schema
